@@ -1040,15 +1040,25 @@ func runScenarioOnce(id int, sc *scenario) bool {
 		stored := "-"
 		if resp.status == 200 {
 			var st []string
+			// in the order of the part numbers (names sort 10.txt before 2.txt)
+			var mine []string
 			for _, n := range after.names {
 				if strings.HasPrefix(n, "uploads/"+rid+"/") {
-					// the upload id is written ID so that the specification need not know it
-					nm := strings.ReplaceAll(n, rid, "ID")
-					if s.mem != nil {
-						st = append(st, hx.HexS(nm)+"=")
-					} else {
-						st = append(st, hx.HexS(nm)+"="+hx.Hex(bytes.ReplaceAll(after.data[n], []byte(rid), []byte("ID"))))
-					}
+					mine = append(mine, n)
+				}
+			}
+			partNo := func(n string) int {
+				k, _ := strconv.Atoi(strings.TrimSuffix(strings.TrimPrefix(n, "uploads/"+rid+"/"), ".txt"))
+				return k
+			}
+			sort.SliceStable(mine, func(i, j int) bool { return partNo(mine[i]) < partNo(mine[j]) })
+			for _, n := range mine {
+				// the upload id is written ID so that the specification need not know it
+				nm := strings.ReplaceAll(n, rid, "ID")
+				if s.mem != nil {
+					st = append(st, hx.HexS(nm)+"=")
+				} else {
+					st = append(st, hx.HexS(nm)+"="+hx.Hex(bytes.ReplaceAll(after.data[n], []byte(rid), []byte("ID"))))
 				}
 			}
 			stored = joinOr(st)
@@ -1609,6 +1619,7 @@ func main() {
 	}
 
 	runHeavyFaults(g)
+	runManyParts(g)
 	runIDs(g)
 	runHTTPConcFamily(g)
 	runLongLineFamily(g)
@@ -1658,6 +1669,50 @@ func runHeavyFaults(g *gen) {
 		for kind := 0; kind < 4; kind++ {
 			heavy(n+seed%100, kind)
 		}
+	}
+}
+
+// runManyParts: uploads of about a thousand tiny files (limits on the number of form parts usually sit
+// at round numbers): every file of a successful upload is stored and retrievable, and a fault in a late
+// part (after the 1000th) fails the whole upload.
+func runManyParts(g *gen) {
+	many := func(n, kind int) {
+		uid := g.uid()
+		rq := reqSpec{cutAt: -1, uid: uid}
+		for j := 0; j < n; j++ {
+			rq.parts = append(rq.parts, partSpec{form: "file", fname: fmt.Sprintf("f%d.txt", j),
+				content: fmt.Sprintf("uid: %s\nBenchmarkP%d 1 %d ns/op\n", uid, j%7, j)})
+		}
+		tag := "manyparts-valid"
+		switch kind {
+		case 1:
+			rq.parts = append(rq.parts, partSpec{form: "file", fname: "bad.txt", content: "PASS\n"})
+			tag = "manyparts-nobench"
+		case 2:
+			rq.parts = append(rq.parts, partSpec{form: "abort", content: "1"})
+			tag = "manyparts-abort"
+		case 3:
+			rq.parts = append(rq.parts, partSpec{form: "surprise", content: "1"})
+			tag = "manyparts-field"
+		case 4:
+			rq.parts = append(rq.parts, partSpec{form: "file", fname: "tail.txt", content: goodFile(g.r, uid, 2)})
+			body, _ := buildBody(rq.parts, "")
+			rq.cutAt = len(body) - 30
+			tag = "manyparts-cut"
+		}
+		sc := &scenario{user: hx.Pick(g.r, []string{"user", ""}), store: "local", tags: []string{"manyparts", tag}}
+		sc.reqs = append(sc.reqs, goodReq(g.r, g.uid(), 1), rq, goodReq(g.r, g.uid(), 1))
+		g.emit(sc)
+	}
+	if hx.Tier() != "thorough" {
+		many(1001, 0)
+		return
+	}
+	for _, n := range []int{999, 1000, 1001, 2000} {
+		many(n, 0)
+	}
+	for kind := 1; kind <= 4; kind++ {
+		many(1000, kind)
 	}
 }
 
